@@ -58,11 +58,17 @@ def gen_program(rng, tier):
     helpers = []
     for k in range(rng.choice([0, 1, 1, 2])):
         helpers.append({"name": f"hf{k}", "mul": rng.choice([1, 2, 3]), "add": rng.choice([0, 1, 7]), "extra": _restricted(rng, [o for o in [_gen_op(rng, includes)] if o["op"] != "inc"])})
+    # statement fragments kept in files of their own and spliced into block bodies, the same file
+    # possibly in several places (a step applied twice, a fragment shared by two kernels)
+    frags = [{"file": f"xofrag_{uid}_{k}.h", "c": rng.choice([3, 7, 11])} for k in range(rng.choice([0, 0, 1, 2]))]
     kernels = []
     for kk in range(rng.choice([1, 1, 2, 3])):
         blocks = []
         for b in range(rng.choice([1, 2, 2, 3])):
             ops = _restricted(rng, [_gen_op(rng, includes, helpers) for _ in range(rng.randint(1, 5))])
+            for fi in range(len(frags)):
+                while rng.random() < 0.5:
+                    ops.insert(rng.randrange(len(ops) + 1), {"op": "frag", "f": fi, "ctx": [t for t in TARGETS if rng.random() < 0.7] or list(TARGETS)})
             blocks.append({"var": rng.choice(["ii", "jj", "tid", "ipart"]), "chain": b > 0 and rng.random() < 0.5, "ops": ops})
         lim = rng.choice(["n", "n", "n", "n-1", "n/2", "n-3"])
         if len(blocks) > 1 and rng.random() < 0.3:
@@ -79,8 +85,8 @@ def gen_program(rng, tier):
     ws = rng.choice(["\x0c", "\x0b", "\x1c", "\x1d", "\x1e"]) if rng.random() < 0.25 else None
     # the whole annotated text in an included file named for every context, the main source holding
     # only include lines and filler (annotations arrive through the splice, not in the text handed in)
-    split = f"xobody_{uid}.h" if rng.random() < 0.2 else None
-    return {"split": split, "ws": ws, "built": built, "includes": includes, "helpers": helpers, "kernels": kernels, "omp": rng.choice([2, 2, "auto"]), "block_size": rng.choice([1, 2, 3, 4, 32, 33, 48, 100, 200, 256]), "nops": rng.choice([2, 4, 6, 10]) if tier == "quick" else rng.choice([6, 12, 20])}
+    split = f"xobody_{uid}.h" if rng.random() < 0.2 and not frags else None  # (include lines inside an included file are not processed)
+    return {"frags": frags, "split": split, "ws": ws, "built": built, "includes": includes, "helpers": helpers, "kernels": kernels, "omp": rng.choice([2, 2, "auto"]), "block_size": rng.choice([1, 2, 3, 4, 32, 33, 48, 100, 200, 256]), "nops": rng.choice([2, 4, 6, 10]) if tier == "quick" else rng.choice([6, 12, 20])}
 
 
 def _gen_op(rng, includes, helpers=()):
@@ -184,6 +190,8 @@ def _stmt(prog, o, var):
         return f"{var} = {var} + {prog['includes'][o['inc']]['macro']};{tail}"
     if o["op"] == "call":
         return f"{var} = {prog['helpers'][o['h']]['name']}({var}, {o['c']}.0);{tail}"
+    if o["op"] == "frag":
+        return f"//include_file {prog['frags'][o['f']]['file']} for_context {' '.join(o['ctx'])}"
     raise ValueError(o)
 
 
@@ -197,6 +205,8 @@ def model_apply(prog, ops, t, target):
             t = t * o["c"]
         elif o["op"] == "inc":
             t = t + prog["includes"][o["inc"]]["value"]
+        elif o["op"] == "frag":
+            t = t + prog["frags"][o["f"]]["c"]
         elif o["op"] == "call":
             h = prog["helpers"][o["h"]]
             r = t * h["mul"] + o["c"] + h["add"]
@@ -272,6 +282,10 @@ class DevSim:
                     with open(inc["file"], "w") as f:
                         f.write(f"/* XOINC marker {inc['macro']} */\n#define {inc['macro']} {inc['value']}.0\n")
                     written.append(inc["file"])
+            for fr in prog.get("frags", []):
+                with open(fr["file"], "w") as f:
+                    f.write(f"t = t + {fr['c']}.0; /* spliced fragment */\n")
+                written.append(fr["file"])
             if body is not None:
                 with open(prog["split"], "w") as f:
                     f.write(body)
@@ -382,7 +396,7 @@ class DevSim:
             for k in prog["kernels"]:
                 for blk in k["blocks"]:
                     for o in blk["ops"]:
-                        if o.get("ctx"):
+                        if o.get("ctx") and o["op"] != "frag":
                             st = _stmt(prog, o, "t")
                             active = any(l.strip() == st for l in spec.splitlines())
                             commented = ("//" + "    " + st) in spec or any(l.strip().startswith("//") and st in l for l in spec.splitlines())
